@@ -156,3 +156,18 @@ func (s *Script) ReplyRaw(subject, payload string) bool {
 	}
 	return false
 }
+
+// Token publishes a connection token event and records it for the token monitors.
+func (s *Script) Token(c *WSClient, tokenJSON, tid string) {
+	if s.h.tokens == nil {
+		s.h.tokens = map[int][]tokenSet{}
+	}
+	s.h.tokens[c.Idx] = append(s.h.tokens[c.Idx], tokenSet{T: s.h.g.Clock.Tick(), Token: canonJSON(tokenJSON), TID: tid})
+	p := `{"token":` + tokenJSON
+	if tid != "" {
+		p += `,"tid":"` + tid + `"`
+	}
+	p += "}"
+	s.h.logf("conn=%d token %s", c.Idx, p)
+	s.h.g.Bus.Event("conn."+c.CID+".token", []byte(p), nil)
+}
